@@ -217,4 +217,30 @@ def collectFiles (recursive topLevel : Bool) : List Entry → List String
   | .dir _ children :: rest =>
     (if recursive then collectFiles recursive false children else []) ++ collectFiles recursive topLevel rest
 
+/-! ## Where the result goes (main.rs `out_file`, and the per-file step of `collect_files`) -/
+
+inductive OutFile
+  | none                                         -- nowhere (`--pretend`)
+  | stdout
+  | path (p : Option String) (preserve : Bool)   -- `p = none`: the input file itself
+  deriving DecidableEq, Repr
+
+structure DestFlags where
+  pretend : Bool := false
+  stdout : Bool := false
+  out : Option String := none
+  dir : Option String := none
+  preserve : Bool := false
+  deriving Repr
+
+/-- `out_file` as computed once in `parse_opts_into_struct` -/
+def baseOut (d : DestFlags) : OutFile :=
+  if d.pretend then .none else if d.stdout then .stdout else .path d.out d.preserve
+
+/-- the destination of one collected input whose last path component is `name` -/
+def fileOut (d : DestFlags) (name : String) : OutFile :=
+  match d.dir, baseOut d with
+  | some dir, .path _ pr => .path (some (dir ++ "/" ++ name)) pr
+  | _, o => o
+
 end OxiModel
